@@ -106,3 +106,49 @@ def insertion_numbers(insertions, valid_ids, from_view):
             r += 1
             rank[t[1]] = r
     return [i["id"] if "id" in i else rank[k] for k, i in enumerate(vins)]
+
+
+def array_tokens(items, explicit_aliases=None, hidden_idxs=()):
+    """Display tokens of an array dimension (no subtotals) whose payload may contain derived
+    (zz9-computed) items.  Payload order: as delivered.  Explicit order: the listed order
+    applies to the NON-derived items (first mention wins, unknown and derived ids ignored,
+    leftovers in payload order); each derived item is then re-anchored: `top` first, `before`
+    / `after` its anchor alias, `bottom` / missing / unknown anchor last; several derived
+    items at the same place keep payload order."""
+    n = len(items)
+    hidden = set(hidden_idxs)
+    if explicit_aliases is None:
+        return [("el", i) for i in range(n) if i not in hidden]
+    derived = [i for i, it in enumerate(items) if it.get("derived")]
+    base = [i for i in range(n) if i not in derived]
+    aliases = [it["alias"] for it in items]
+    seq = []
+    for a in explicit_aliases:
+        if a in aliases:
+            i = aliases.index(a)
+            if i in base and i not in seq:
+                seq.append(i)
+    seq += [i for i in base if i not in seq]
+
+    def place(i):
+        anchor = items[i].get("anchor")
+        if anchor is None:
+            return ("bottom", None)
+        if anchor == "top":
+            return ("top", None)
+        if anchor == "bottom":
+            return ("bottom", None)
+        target = anchor.get("alias")
+        if target not in aliases or aliases.index(target) not in base:
+            return ("bottom", None)
+        return ("before" if anchor.get("position") == "before" else "after",
+                aliases.index(target))
+
+    places = {i: place(i) for i in derived}
+    out = [i for i in derived if places[i][0] == "top"]
+    for b in seq:
+        out += [i for i in derived if places[i] == ("before", b)]
+        out.append(b)
+        out += [i for i in derived if places[i] == ("after", b)]
+    out += [i for i in derived if places[i][0] == "bottom"]
+    return [("el", i) for i in out if i not in hidden]
